@@ -412,13 +412,13 @@ def verify(E, c, verbose=False):
                 res.normal += 1
                 spec_env.locals['result'] = value
                 for k, node in ens_nodes.items():
-                    v = E.eval_spec(node, spec_env)
+                    v = E.eval_spec(node, spec_env, E.ghost_env(spec_env))
                     E.oblige('%s::ensures.%s' % (prefix, k), E.as_z3_bool(v), 'post', c.ensures[k])
             else:
                 res.exceptional += 1
                 spec_env.locals['exc'] = value
                 for k, node in exc_nodes.items():
-                    v = E.eval_spec(node, spec_env)
+                    v = E.eval_spec(node, spec_env, E.ghost_env(spec_env))
                     E.oblige('%s::exc_ensures.%s' % (prefix, k), E.as_z3_bool(v), 'exc_post',
                              c.exc_ensures[k])
                 if c.raises is not None:
